@@ -5,6 +5,7 @@ import (
 	"go/constant"
 	"go/token"
 	"go/types"
+	"strings"
 	"sync"
 
 	"golang.org/x/tools/go/ssa"
@@ -108,7 +109,12 @@ type Exec struct {
 	choices      int
 	envPool      [][][]Value
 	decided      map[*Term]bool // conditions already decided on this path
-	locks        map[*Value]bool // mutexes currently held (lockset)
+	held         int // mutexes currently held
+	lockEvents   int
+	lockedWrites map[string]int
+	mapWritten   map[*Map]bool
+	mapUnlocked  map[*Map]map[string]int
+	harnessFn    map[*ssa.Function]bool
 	unlockedCache int
 	curInstr     ssa.Instruction
 	stack        []*ssa.Function
@@ -386,6 +392,15 @@ func (fr *frame) get(v ssa.Value) Value {
 func (fr *frame) set(v ssa.Value, x Value) { fr.env[fr.info.idx[v]] = x }
 
 var globalObj = &Obj{epoch: 0, site: "global"}
+var harnessGlobalObj = &Obj{epoch: 0, site: "harness-global", harness: true}
+
+func isHarnessFile(prog *ssa.Program, pos token.Pos) bool {
+	if !pos.IsValid() {
+		return false
+	}
+	f := prog.Fset.Position(pos).Filename
+	return strings.Contains(f, "zz_verif_")
+}
 
 func (e *Exec) globalPtr(g *ssa.Global) Ptr {
 	s, ok := e.globals[g]
@@ -393,6 +408,9 @@ func (e *Exec) globalPtr(g *ssa.Global) Ptr {
 		s = new(Value)
 		*s = zero(g.Type().(*types.Pointer).Elem())
 		e.globals[g] = s
+	}
+	if isHarnessFile(e.prog, g.Pos()) {
+		return Ptr{o: harnessGlobalObj, slot: s}
 	}
 	return Ptr{o: globalObj, slot: s}
 }
@@ -406,7 +424,73 @@ func (e *Exec) curPos() string {
 	return fmt.Sprintf("%s:%d in %s", pos.Filename, pos.Line, fn)
 }
 
-func (e *Exec) newObj(site string) *Obj { return &Obj{epoch: e.epoch, site: site} }
+func (e *Exec) newObj(site string) *Obj {
+	o := &Obj{epoch: e.epoch, site: site}
+	if n := len(e.stack); n > 0 {
+		o.harness = e.inHarness(e.stack[n-1])
+	}
+	return o
+}
+
+func (e *Exec) inHarness(fn *ssa.Function) bool {
+	if v, ok := e.harnessFn[fn]; ok {
+		return v
+	}
+	f := fn
+	for f.Parent() != nil {
+		f = f.Parent()
+	}
+	v := isHarnessFile(e.prog, f.Pos())
+	e.harnessFn[fn] = v
+	return v
+}
+
+// sharedWrite records a write to memory that existed before the last
+// verifEpoch() and is not the caller's (harness-allocated) object.
+func (e *Exec) sharedWrite(o *Obj) {
+	if e.epoch < 2 || o == nil || o.harness || o.epoch >= e.epoch {
+		return
+	}
+	site := e.curPos()
+	if e.held > 0 {
+		e.lockedWrites[site]++
+		return
+	}
+	e.sharedWrites[site]++
+}
+
+// sharedMapAccess records accesses to shared maps for the lockset check.
+func (e *Exec) sharedMapAccess(m *Map, write bool) {
+	if m == nil || e.epoch < 2 || m.o == nil || m.o.harness || m.o.epoch >= e.epoch {
+		return
+	}
+	if write {
+		e.mapWritten[m] = true
+		if e.held == 0 {
+			e.sharedWrites[e.curPos()]++
+		} else {
+			e.lockedWrites[e.curPos()]++
+		}
+	}
+	if e.held == 0 {
+		if e.mapUnlocked[m] == nil {
+			e.mapUnlocked[m] = map[string]int{}
+		}
+		e.mapUnlocked[m][e.curPos()]++
+	}
+}
+
+// unlockedAccessesToWrittenMaps: Eraser-style lockset check for maps - a shared
+// map that is written after the epoch must never be accessed without a lock.
+func (e *Exec) unlockedAccessesToWrittenMaps() map[string]int {
+	out := map[string]int{}
+	for m := range e.mapWritten {
+		for site, n := range e.mapUnlocked[m] {
+			out[site] += n
+		}
+	}
+	return out
+}
 
 func (e *Exec) load(p Ptr) Value {
 	if p.slot == nil {
@@ -418,9 +502,7 @@ func (e *Exec) store(p Ptr, v Value) {
 	if p.slot == nil {
 		e.gopanic("nil pointer dereference (store)")
 	}
-	if e.epoch >= 2 && p.o != nil && p.o.epoch < e.epoch && p.o != globalObj {
-		e.sharedWrites[e.curPos()]++
-	}
+	e.sharedWrite(p.o)
 	*p.slot = copyVal(v)
 }
 
@@ -694,9 +776,7 @@ func (fr *frame) runBlock() {
 			if m == nil {
 				e.gopanic("assignment to entry in nil map")
 			}
-			if e.epoch >= 2 && m.o.epoch < e.epoch {
-				e.sharedWrites[e.curPos()]++
-			}
+			e.sharedMapAccess(m, true)
 			e.mapSet(m, fr.get(ins.Key), fr.get(ins.Value))
 		case *ssa.TypeAssert:
 			fr.set(ins, e.typeAssert(ins, fr.get(ins.X).(Iface)))
